@@ -149,12 +149,14 @@ class HObj(object):
         self.fields = {}
         self.items = [] if kind == 'list' else {}
         self.open = False      # list/dict may contain more than `items`
+        self.born = 0
 
     def clone(self):
         h = HObj(self.kind, self.cls)
         h.fields = dict(self.fields)
         h.items = list(self.items) if self.kind == 'list' else dict(self.items)
         h.open = self.open
+        h.born = self.born
         return h
 
 
@@ -191,6 +193,9 @@ class State(object):
         self.frames = []      # list of dict name -> V ; '$func' -> FuncInfo
         self.flags = set()
         self.counter = 0
+        self.base = 0
+        self.syminfo = {}
+        self.lin = {}         # sym name -> (other sym name, c): name = other + c
 
     def fork(self):
         s = State()
@@ -203,6 +208,9 @@ class State(object):
         s.frames = [dict(f) for f in self.frames]
         s.flags = set(self.flags)
         s.counter = self.counter
+        s.base = self.base
+        s.syminfo = dict(self.syminfo)
+        s.lin = dict(self.lin)
         return s
 
     def fresh(self, prefix):
@@ -212,6 +220,7 @@ class State(object):
     def new_obj(self, kind, cls=None, hint=None):
         oid = hint if hint and hint not in self.heap else self.fresh(hint or kind)
         self.heap[oid] = HObj(kind, cls)
+        self.heap[oid].born = self.counter
         return Obj(oid)
 
     @property
